@@ -24,10 +24,19 @@ open StepModel.Generated
 inductive AKind | explicit | optional | derived | inverse
   deriving DecidableEq, Repr
 
+/-- the declared type of an attribute as far as the emitted setter shows it -/
+inductive ATy
+  | simple (py : String)        -- INTEGER REAL NUMBER STRING BINARY LOGICAL: `check_type(value, INTEGER)`
+  | boolean                     -- `check_type(value, BOOLEAN)` (`BOOLEAN = bool`)
+  | named (n : String)          -- a defined type or an entity: `check_type(value, <escaped name>)`
+  | aggregate                   -- an aggregate expression written inline: `check_type(value, LIST(…))`
+  deriving DecidableEq, Repr
+
 structure Attr where
   owner : String
   name : String
   kind : AKind
+  ty : ATy := .simple "INTEGER"
   deriving DecidableEq, Repr
 
 structure Entity where
@@ -116,6 +125,11 @@ def isAncestor (es : List Entity) : Nat → String → String → Bool
     | none => false
     | some e => e.supers.any (fun p => p == anc || isAncestor es f anc p)
 
+/-- `anc` is a direct or indirect supertype of `n` -/
+inductive Anc (es : List Entity) : String → String → Prop
+  | direct {anc n : String} {e : Entity} : find es n = some e → anc ∈ e.supers → Anc es anc n
+  | step {anc p n : String} {e : Entity} : find es n = some e → p ∈ e.supers → Anc es anc p → Anc es anc n
+
 /-- `r` has to wait: a subtype of it is still among the remaining supertypes -/
 def blocked (es : List Entity) (r : String) (remaining : List String) : Bool :=
   remaining.any (fun o => o != r && isAncestor es es.length r o)
@@ -178,6 +192,60 @@ structure PyClass where
 def classOf (es : List Entity) (e : Entity) : PyClass :=
   { name := pyName e.name, bases := (bases es e).map pyName,
     ctor := if hasCtor e then some (ctorParams es e) else none }
+
+/-! ### the class body: one property per own attribute (`LIBdescribe_entity`, "write attributes as python properties") -/
+
+/-- what the emitted setter does -/
+inductive Access
+  | mandatory      -- `assert value is not None`, then `check_type(value, T)`
+  | optional       -- `None` is stored as it is, anything else goes through `check_type(value, T)`
+  | derived        -- `raise AssertionError('Argument … is DERIVED …')`
+  | inverse        -- `raise AssertionError('Argument … is INVERSE …')`
+  deriving DecidableEq, Repr
+
+structure PyProp where
+  name : String                 -- the property (and the getter/setter functions) carry the escaped attribute name
+  access : Access
+  checks : Option String        -- the name handed to `check_type` (`none`: an inline aggregate expression, or read-only)
+  deriving DecidableEq, Repr
+
+def accessOf : AKind → Access
+  | .explicit => .mandatory | .optional => .optional | .derived => .derived | .inverse => .inverse
+
+def checkedName : ATy → Option String
+  | .simple py => some py
+  | .boolean => some "BOOLEAN"
+  | .named n => some (pyName n)
+  | .aggregate => none
+
+def propOf (a : Attr) : PyProp :=
+  { name := pyName a.name, access := accessOf a.kind,
+    checks := if isParam a then checkedName a.ty else none }
+
+/-- the properties of the class, in the order of `ENTITYget_attributes` (the entity's own attributes only; inherited ones
+come with the base classes) -/
+def propsOf (e : Entity) : List PyProp := e.attrs.map propOf
+
+def PyProp.settable (p : PyProp) : Bool := p.access == .mandatory || p.access == .optional
+
+/-- Which values of a fixed probe battery the setter stores (`I` = INTEGER(1), `R` = REAL(1.5), `S` = STRING('x'),
+`B` = BINARY('01'), `T` = True): `check_type` for a class is `isinstance`; NUMBER is a base class of INTEGER and REAL;
+a defined type over BOOLEAN is the alias `bool`; instances of the simple classes are never instances of a defined-type
+class, an entity class, an enumeration, a select or an aggregate. -/
+def acceptsProbe (types : List TypeDef) (a : Attr) : List Char :=
+  if !isParam a then [] else
+  match a.ty with
+  | .simple "INTEGER" => ['I']
+  | .simple "REAL" => ['R']
+  | .simple "NUMBER" => ['I', 'R']
+  | .simple "STRING" => ['S']
+  | .simple "BINARY" => ['B']
+  | .simple _ => []
+  | .boolean => ['T']
+  | .named n => match (types.find? (fun t => t.name == n)).map (fun t => t.body) with
+      | some TBody.boolean => ['T']
+      | _ => []
+  | .aggregate => []
 
 /-- type definitions as emitted: the defined name and every identifier in the body (enumeration items, select members,
 the referenced type of a renamed type, the base type of an aggregate) are escaped -/
